@@ -30,7 +30,9 @@ func arr(b []byte) (a [32]byte) { copy(a[:], b); return }
 
 func run(c *vf.Ctx) {
 	c.Rule("full product scalar alphabet x u-coordinate alphabet (see header); per pair: X25519 value/error, ScalarMult into a dirty dst (also with dst aliasing scalar or point), inputs unmodified; " +
-		"per scalar: ScalarBaseMult = X25519(.,Basepoint) = X25519(.,copy of 9) = model; all scalar pairs: a*(b*G) = b*(a*G) = model. " +
+		"per scalar: ScalarBaseMult = X25519(.,Basepoint) = X25519(.,copy of 9) = model; all scalar pairs: a*(b*G) = b*(a*G) = model; " +
+		"history dimension: 11 ways an earlier caller may have overwritten or re-assigned the writable variable curve25519.Basepoint x every scalar (serial, restored afterwards): ScalarBaseMult still = model X25519(scalar,9); " +
+		"scalar, point and Basepoint bytes identical after every call. " +
 		"non-trivial = distinct (scalar,point) pair whose point encoding is non-canonical (>= p), has bit 255 set, or is of small order, or whose scalar is not already clamped; " +
 		"oracle = RFC 7748 ladder over math/big (KAT-validated incl. the 1,000-iteration vector)")
 	c.Assume("math/big is correct; scalar and point values outside the alphabet are not enumerated")
@@ -151,6 +153,12 @@ func run(c *vf.Ctx) {
 				c.Violation("ScalarMult != RFC 7748 value"+pointClass(p.v), det)
 			}
 		}
+		if sIn != s.v || pIn != p.v {
+			c.Violation("ScalarMult modifies its scalar or point argument", det)
+		}
+		if !bytes.Equal(curve25519.Basepoint, x25519ref.Base[:]) {
+			c.Violation("a call modifies the bytes behind curve25519.Basepoint", det)
+		}
 		// dst aliasing the point, dst aliasing the scalar
 		pa := p.v
 		sa := s.v
@@ -160,12 +168,18 @@ func run(c *vf.Ctx) {
 			det["got"] = fmt.Sprintf("%x", pa)
 			c.Violation("ScalarMult with dst==point wrong", det)
 		}
+		if sa != s.v {
+			c.Violation("ScalarMult modifies its scalar or point argument", det)
+		}
 		pa = p.v
 		pan, _, _ = vf.Protect(func() { curve25519.ScalarMult(&sa, &sa, &pa) })
 		c.Eval(1)
 		if pan || sa != want {
 			det["got"] = fmt.Sprintf("%x", sa)
 			c.Violation("ScalarMult with dst==scalar wrong", det)
+		}
+		if pa != p.v {
+			c.Violation("ScalarMult modifies its scalar or point argument", det)
 		}
 		if pointClass(p.v) != "" || !clamped(s.v) {
 			c.Nontrivial(fmt.Sprintf("%d/%d", i/len(points), i%len(points)))
@@ -199,6 +213,9 @@ func run(c *vf.Ctx) {
 		if sIn != s.v {
 			c.Violation("ScalarBaseMult modifies the scalar", det)
 		}
+		if !bytes.Equal(curve25519.Basepoint, x25519ref.Base[:]) {
+			c.Violation("a call modifies the bytes behind curve25519.Basepoint", det)
+		}
 		var out []byte
 		var err error
 		pan, _, _ = vf.Protect(func() { out, err = curve25519.X25519(sIn[:], curve25519.Basepoint) })
@@ -208,7 +225,10 @@ func run(c *vf.Ctx) {
 			c.Violation("X25519(scalar, curve25519.Basepoint) != RFC 7748 value", det)
 		}
 		if !bytes.Equal(curve25519.Basepoint, x25519ref.Base[:]) {
-			c.Violation("X25519 modifies curve25519.Basepoint", det)
+			c.Violation("a call modifies the bytes behind curve25519.Basepoint", det)
+		}
+		if sIn != s.v {
+			c.Violation("X25519 modifies its input slices", det)
 		}
 		// dst aliasing scalar
 		sa := s.v
@@ -243,6 +263,9 @@ func run(c *vf.Ctx) {
 		if !bytes.Equal(k1, want[:]) {
 			c.Violation("shared secret != RFC 7748 value", det)
 		}
+		if sa != scalars[a].v || sb != scalars[b].v || pa != pubs[a] || pb != pubs[b] {
+			c.Violation("X25519 modifies its input slices", det)
+		}
 	})
 
 	// ---- 4. inputs of the wrong length: error, never a panic or a value
@@ -268,7 +291,133 @@ func run(c *vf.Ctx) {
 			}
 		}
 	}
+	// ---- 5. history dimension: the exported, writable variable curve25519.Basepoint ------
+	// An earlier caller may have overwritten the bytes behind Basepoint or re-assigned the
+	// variable. "ScalarBaseMult equals X25519 with the base point" holds for every scalar
+	// regardless. Runs serially on this goroutine after all parallel sections have finished,
+	// and restores the variable and its bytes afterwards.
+	clobberHistory(c, scalars, pubs)
+
 	c.Sample(map[string]any{"scalars": len(scalars), "points": len(points), "pairs": len(scalars) * len(points), "dh_pairs": n * (n + 1) / 2})
+}
+
+func clobberHistory(c *vf.Ctx, scalars []named, pubs [][32]byte) {
+	origSlice := curve25519.Basepoint
+	var origBytes [32]byte
+	copy(origBytes[:], origSlice)
+	restore := func() {
+		curve25519.Basepoint = origSlice
+		copy(origSlice, origBytes[:])
+	}
+	defer restore()
+
+	type clobber struct {
+		name     string
+		bytes    []byte // written over the bytes behind Basepoint (nil: leave)
+		reassign []byte // if non-nil (or reassignNil) the variable itself is re-assigned
+		setNil   bool
+	}
+	enc := x25519ref.SmallOrderEncodings()
+	nine255 := x25519ref.Base
+	nine255[31] |= 0x80
+	pPlus9 := x25519ref.IntToLE32(x25519ref.P)
+	pPlus9[0] += 9
+	rnd := arr(c.Bytes("c11-clobber", 0, 32))
+	prev := pubs[len(pubs)/2] // "copy(p, out)" after an earlier X25519(k, Basepoint)
+	clobbers := []clobber{
+		{name: "bytes all zero", bytes: make([]byte, 32)},
+		{name: "bytes all 0xff", bytes: bytes.Repeat([]byte{0xff}, 32)},
+		{name: "bytes = small-order point (order 8)", bytes: enc[len(enc)-4][:]},
+		{name: "bytes = u=1 (order 4)", bytes: enc[4][:]},
+		{name: "bytes = seeded point", bytes: rnd[:]},
+		{name: "bytes = output of an earlier X25519(k, Basepoint)", bytes: prev[:]},
+		{name: "bytes = 9 with bit 255 set", bytes: nine255[:]},
+		{name: "bytes = p+9 (non-canonical 9)", bytes: pPlus9[:]},
+		{name: "variable re-assigned to a slice holding a seeded point", reassign: append([]byte(nil), rnd[:]...)},
+		{name: "variable re-assigned to a 31-byte slice", reassign: make([]byte, 31)},
+		{name: "variable re-assigned to nil", setNil: true},
+	}
+	var zero [32]byte
+	for _, cl := range clobbers {
+		restore()
+		switch {
+		case cl.setNil:
+			curve25519.Basepoint = nil
+		case cl.reassign != nil:
+			curve25519.Basepoint = cl.reassign
+		default:
+			copy(curve25519.Basepoint, cl.bytes)
+		}
+		during := append([]byte(nil), curve25519.Basepoint...)
+		for i, s := range scalars {
+			det := map[string]any{"history": cl.name, "scalar": s.name, "scalar_hex": fmt.Sprintf("%x", s.v), "model_X25519(scalar,9)": fmt.Sprintf("%x", pubs[i])}
+			var dst [32]byte
+			for j := range dst {
+				dst[j] = 0xA5
+			}
+			sIn := s.v
+			pan, val, _ := vf.Protect(func() { curve25519.ScalarBaseMult(&dst, &sIn) })
+			c.Eval(1)
+			if pan {
+				det["panic"] = fmt.Sprint(val)
+				c.Violation("ScalarBaseMult != X25519(scalar, 9) after curve25519.Basepoint was overwritten by a caller", det)
+			} else if dst != pubs[i] {
+				det["got"] = fmt.Sprintf("%x", dst)
+				c.Violation("ScalarBaseMult != X25519(scalar, 9) after curve25519.Basepoint was overwritten by a caller", det)
+			}
+			if sIn != s.v {
+				c.Violation("ScalarBaseMult modifies the scalar", det)
+			}
+			if !bytes.Equal(curve25519.Basepoint, during) {
+				c.Violation("a call modifies the bytes behind curve25519.Basepoint", det)
+			}
+			// X25519 with the (clobbered) Basepoint slice is X25519 of the bytes it now holds:
+			// no shortcut keyed on the slice's identity may assume it still holds 9.
+			if len(during) == 32 {
+				want := x25519ref.X25519(s.v, arr(during))
+				var out []byte
+				var err error
+				pan, _, _ := vf.Protect(func() { out, err = curve25519.X25519(sIn[:], curve25519.Basepoint) })
+				c.Eval(1)
+				bad := pan
+				if want == zero {
+					bad = bad || err == nil
+				} else {
+					bad = bad || err != nil || !bytes.Equal(out, want[:])
+				}
+				if bad {
+					det["basepoint_bytes"] = fmt.Sprintf("%x", during)
+					det["got"] = fmt.Sprintf("%x %v", out, err)
+					c.Violation("X25519(scalar, curve25519.Basepoint) != RFC 7748 value of the bytes the slice holds", det)
+				}
+				if sIn != s.v || !bytes.Equal(curve25519.Basepoint, during) {
+					c.Violation("X25519 modifies its input slices", det)
+				}
+			}
+			c.Nontrivial(fmt.Sprintf("hist/%s/%d", cl.name, i))
+		}
+		c.Outcome("history: " + cl.name)
+	}
+	// after restoring: behaviour is the original one
+	restore()
+	for i, s := range scalars {
+		sIn := s.v
+		var out []byte
+		var err error
+		var dst [32]byte
+		pan, _, _ := vf.Protect(func() {
+			out, err = curve25519.X25519(sIn[:], curve25519.Basepoint)
+			curve25519.ScalarBaseMult(&dst, &sIn)
+		})
+		c.Eval(2)
+		if pan || err != nil || !bytes.Equal(out, pubs[i][:]) || dst != pubs[i] {
+			c.Violation("X25519(scalar, Basepoint)/ScalarBaseMult changed after Basepoint was clobbered and restored", map[string]any{"scalar": s.name})
+		}
+		if !bytes.Equal(curve25519.Basepoint, x25519ref.Base[:]) || sIn != s.v {
+			c.Violation("a call modifies the bytes behind curve25519.Basepoint", map[string]any{"scalar": s.name})
+		}
+	}
+	c.Sample(map[string]any{"history_patterns": len(clobbers), "scalars": len(scalars), "example": clobbers[2].name})
 }
 
 // pointClass names what is special about a u-coordinate encoding ("" if it is a canonical
